@@ -98,8 +98,18 @@ def run(chk, replay=None):
     # oracle (load): a prefix declared by the source document and used in a formula must still be declared, and bound to the
     # same namespace, in the package saved after load()
     loaded_value_prefix(chk)
+    # fixed cases: a loaded package binds a prefix of the generated form ns<k> (k = the next numbers the library would hand out) to a
+    # foreign namespace, then new namespaces are registered: no prefix may end up bound twice
+    import translate_ns as _tns
+    n0 = len(_tns.initial_nsdict()[0])
+    for k in range(n0, n0 + 4):
+        out = C.run_child({'synthetic': [[u'ns%d' % k, u'urn:foreign:gen%d' % k]], 'touch': [u'urn:new:%d' % j for j in range(5)]})
+        chk.case(('genprefix', k)); chk.count('generated_form_prefix_cases')
+        C.table_oracle(chk, out['table_after'], {'synthetic': [[u'ns%d' % k, u'urn:foreign:gen%d' % k]], 'touch': 5})
     # history independence: same trees, fresh interpreter vs after a history
     samples = sorted(glob.glob(os.path.join(common.REPO, 'tests', 'examples', '*.od*')))
+    import translate_ns
+    NINIT = len(translate_ns.initial_nsdict()[0])
     n = 12 if chk.tier == 'quick' else 120
     for i in range(n):
         rng = chk.rng
@@ -114,7 +124,13 @@ def run(chk, replay=None):
         for _ in range(rng.choice([0, 1, 2])):
             ns0, p0 = rng.choice(known)
             synth.append([p0, u'urn:foreign:' + p0])          # a reserved prefix bound to a foreign namespace by the source
-        touch = [ns0 for ns0, p0 in known if any(p0 == sp[0] for sp in synth)] + [rng.choice(known)[0]]
+        for _ in range(rng.choice([0, 1, 2])):
+            # ... or a prefix of the form the library GENERATES (ns<k>, k around the size of its table) - a loader that adopts
+            # the source's prefix must not collide with the next generated one
+            k = NINIT + rng.randint(0, 10)      # NINIT = size of the table in a fresh interpreter
+            synth.append([u'ns%d' % k, u'urn:foreign:gen%d' % k])
+        touch = [ns0 for ns0, p0 in known if any(p0 == sp[0] for sp in synth)] + [rng.choice(known)[0]] \
+                + [u'urn:new:%d:%d' % (i, j) for j in range(rng.randint(1, 6))]
         fresh = C.run_child({'trees_before': early, 'trees': trees})
         after = C.run_child({'trees_before': early, 'history': hist, 'preload': pre, 'synthetic': synth, 'touch': touch,
                              'trees': other + trees})
